@@ -10,6 +10,7 @@ CONSTANTS
   MaxItems = 0
   Addrs = {"4096"}
   Grows = {1, 2}
+  Lates = FALSE
   NopKinds = {"1", "4"}
   VariantSet = "align"
   Rotate = 2
